@@ -167,7 +167,7 @@ func (s *Solver) readUntilMarker() []string {
 	if s.curTO > 0 {
 		cur = s.curTO
 	}
-	limit := time.Duration(3*cur+5000) * time.Millisecond
+	limit := time.Duration(5*cur+30000) * time.Millisecond // generous: on a loaded machine the solver may be descheduled for seconds
 	timer := time.NewTimer(limit)
 	defer timer.Stop()
 	for {
